@@ -5,6 +5,7 @@ import Mathlib.Analysis.SpecialFunctions.Exp
 import Mathlib.Data.Matrix.Mul
 import Mathlib.Data.Fintype.Pi
 import Mathlib.Algebra.BigOperators.Ring.Finset
+import Mathlib.Tactic.NormNum
 /-!
 Helper lemmas for C19: from the basis-state action of gate lists (`GateDesc.act`, `circuitAct`) to matrices on an
 `n`-wire register indexed by bit functions `Fin n → Bool` (qubit label `k` = wire `k`); the product of the gates' matrices
@@ -153,6 +154,39 @@ theorem commute_wireZero_of_diag (n a : ℕ) (d : (Fin n → Bool) → ℂ) :
     Matrix.diagonal d * wireZero n a = wireZero n a * Matrix.diagonal d := by
   rw [wireZero, Matrix.diagonal_mul_diagonal, Matrix.diagonal_mul_diagonal]
   congr 1; funext R; ring
+
+/-! ### the reflection about a set of basis states -/
+
+section Refl
+variable {κ : Type} [DecidableEq κ]
+
+/-- the reflection `2P − 1` about the span of the basis states selected by `p` (`P` = projector onto them);
+for `p = (· = k0)` this is `2|k0⟩⟨k0| − 1` -/
+def reflOn (p : κ → Prop) [DecidablePred p] : Matrix κ κ ℂ := Matrix.diagonal fun k => if p k then 1 else -1
+
+theorem reflOn_eq_two_proj_sub_one (p : κ → Prop) [DecidablePred p] :
+    reflOn p = (2 : ℂ) • (Matrix.diagonal fun k => if p k then (1 : ℂ) else 0) - 1 := by
+  ext i j
+  by_cases h : i = j
+  · subst h
+    by_cases hp : p i <;> simp [reflOn, Matrix.diagonal, hp] <;> norm_num
+  · simp [reflOn, Matrix.diagonal, Matrix.one_apply, h]
+
+theorem reflOn_sq [Fintype κ] (p : κ → Prop) [DecidablePred p] : reflOn p * reflOn p = 1 := by
+  rw [reflOn, Matrix.diagonal_mul_diagonal]
+  ext i j; by_cases h : i = j <;> by_cases h0 : p j <;> simp [Matrix.diagonal, Matrix.one_apply, h, h0]
+
+end Refl
+
+/-- all encoding qubits read 0 in the register state `R` -/
+def EncZero (n : ℕ) (enc : List ℕ) (R : Fin n → Bool) : Prop := AllZero (ext n R) enc
+
+instance (n : ℕ) (enc : List ℕ) : DecidablePred (EncZero n enc) := fun R => by unfold EncZero; infer_instance
+
+theorem exp_I_mul_ite (c : Prop) [Decidable c] (θ : ℝ) :
+    Complex.exp (I * ((if c then θ else -θ : ℝ) : ℂ)) = if c then Complex.exp (I * θ) else Complex.exp (-(I * θ)) := by
+  split_ifs <;> simp
+
 
 /-- interpretation of the entries of an eigenvalue-transformation circuit on the `n`-wire register: emitted gates by their
 action, the block encoding and its inverse by two given matrices -/
